@@ -92,8 +92,11 @@ macro_rules! exec_encode_impl {
     };
     let c = a.into_compressed();
     let u = a.into_uncompressed();
+    let c2 = <<$A as CurveAffine>::Compressed>::from_affine(a);
+    let u2 = <<$A as CurveAffine>::Uncompressed>::from_affine(a);
     json!({
         "aff": aff_to_j(&a),
+        "c_from_affine": bytes_to_j(c2.as_ref()), "u_from_affine": bytes_to_j(u2.as_ref()),
         "c": bytes_to_j(c.as_ref()), "u": bytes_to_j(u.as_ref()),
         "dc": dec_res(c.into_affine()), "du": dec_res(u.into_affine()),
         "sizes": [<<$A as CurveAffine>::Compressed>::size(),
@@ -447,9 +450,20 @@ pub fn exec_misc(st: &mut MiscState, op: &Value) -> Value {
         },
         "pairing" => {
             let (p, q) = (g1a(&op["p"]), g2a(&op["q"]));
+            // the same points as non-normalized projective representatives (2P - P)
+            let mut pp = p.into_projective();
+            pp.double();
+            pp.sub_assign_mixed(&p);
+            let mut qq = q.into_projective();
+            qq.double();
+            qq.sub_assign_mixed(&q);
+            let prep = Bls12::final_exponentiation(&Bls12::miller_loop([(&p.prepare(), &q.prepare())].iter()));
             json!({"e": Bls12::pairing(p, q).to_j(),
                    "pw": p.pairing_with(&q).to_j(),
-                   "qw": q.pairing_with(&p).to_j()})
+                   "qw": q.pairing_with(&p).to_j(),
+                   "proj": Bls12::pairing(pp, qq).to_j(),
+                   "prep": fq12_opt(prep),
+                   "p_prep_zero": p.prepare().is_zero(), "q_prep_zero": q.prepare().is_zero()})
         }
         "bilin" => {
             let (p, q) = (g1a(&op["p"]), g2a(&op["q"]));
